@@ -670,3 +670,89 @@ Proof.
   intros h' y1 c1 y2 c2 Hle J1 J2. destruct (Hyp _ _ _ _ _ Hle J1 J2) as (A & B1 & C).
   split; [exact B1|]. split; [exact C|]. left. exact A.
 Qed.
+
+(** * 7. Executable checkers of the hypotheses (sound; used for the examples and usable by a check
+      on the votes real validators signed) *)
+Definition is_nil (t : bytes) : bool := match t with [] => true | _ => false end.
+
+Definition byz_boundb (vs : valset) (Bh : list N) : bool := valset_okb (vs_pows vs) (byz_mask vs Bh).
+Lemma byz_boundb_ok vs Bh : byz_boundb vs Bh = true -> byz_bound vs Bh.
+Proof. apply valset_okb_ok. Qed.
+
+Definition a1mb (vs : valset) (Bh : list N) (V : list sigd) (h : N) : bool :=
+  forallb (fun sg => match sg with
+    | SVote key k h1 r t =>
+        negb (h1 =? h) || negb ((k =? KPrevote) || (k =? KPrecommit)) ||
+        negb (inb key (vs_keys vs)) || inb key Bh ||
+        forallb (fun sg' => match sg' with
+           | SVote key' k' h' r' t' =>
+               negb ((key' =? key) && (k' =? k) && (h' =? h) && (r' =? r)) || bytes_eqb t t'
+           | _ => true end) V
+    | _ => true end) V.
+
+Lemma a1mb_ok vs Bh V h : a1mb vs Bh V h = true -> A1m vs Bh V h.
+Proof.
+  unfold a1mb, A1m. rewrite forallb_forall. intros H key kind r t t' Hk Kin Kb H1 H2.
+  specialize (H _ H1). cbv beta iota in H. rewrite N.eqb_refl in H.
+  assert (Ek : (kind =? KPrevote) || (kind =? KPrecommit) = true) by (destruct Hk as [->| ->]; reflexivity).
+  apply inb_in in Kin. apply inb_not in Kb. rewrite Ek, Kin, Kb in H. cbn [negb orb] in H.
+  rewrite forallb_forall in H. specialize (H _ H2). cbv beta iota in H.
+  rewrite !N.eqb_refl in H. cbn [andb negb orb] in H. apply bytes_eqb_eq. exact H.
+Qed.
+
+Definition a2mb (vs : valset) (Bh : list N) (V : list sigd) (h : N) : bool :=
+  forallb (fun sg => match sg with
+    | SVote key k h1 r t =>
+        negb (h1 =? h) || negb (k =? KPrecommit) || negb (inb key (vs_keys vs)) || inb key Bh || is_nil t ||
+        mquorumb vs Bh V KPrevote h r t
+    | _ => true end) V.
+
+Lemma a2mb_ok vs Bh V h : a2mb vs Bh V h = true -> A2m vs Bh V h.
+Proof.
+  unfold a2mb, A2m. rewrite forallb_forall. intros H key r t Kin Kb Hin Hne.
+  specialize (H _ Hin). cbv beta iota in H. rewrite !N.eqb_refl in H.
+  apply inb_in in Kin. apply inb_not in Kb. rewrite Kin, Kb in H. cbn [negb orb] in H.
+  destruct t; [contradiction|]. exact H.
+Qed.
+
+Definition a3mb (vs : valset) (Bh : list N) (V : list sigd) (h : N) : bool :=
+  forallb (fun sg => match sg with
+    | SVote key k h1 r t =>
+        negb (h1 =? h) || negb (k =? KPrecommit) || negb (inb key (vs_keys vs)) || inb key Bh || is_nil t ||
+        forallb (fun sg' => match sg' with
+           | SVote key' k' h' r' t' =>
+               negb ((key' =? key) && (k' =? KPrevote) && (h' =? h) && (r <? r')) || is_nil t' || bytes_eqb t' t ||
+               existsb (fun r'' => mquorumb vs Bh V KPrevote h r'' t') (rounds_between r r')
+           | _ => true end) V
+    | _ => true end) V.
+
+Lemma a3mb_ok vs Bh V h : a3mb vs Bh V h = true -> A3m vs Bh V h.
+Proof.
+  unfold a3mb, A3m. rewrite forallb_forall. intros H key r r' t t' Kin Kb H1 H2 Hn Hn' Hne Hlt.
+  specialize (H _ H1). cbv beta iota in H. rewrite !N.eqb_refl in H.
+  apply inb_in in Kin. apply inb_not in Kb. rewrite Kin, Kb in H. cbn [negb orb] in H.
+  destruct t as [|t0 tt]; [contradiction|]. cbn [is_nil orb] in H.
+  rewrite forallb_forall in H. specialize (H _ H2). cbv beta iota in H.
+  rewrite !N.eqb_refl, (proj2 (N.ltb_lt _ _) Hlt) in H. cbn [andb negb orb] in H.
+  destruct t' as [|t0' tt']; [contradiction|]. cbn [is_nil orb] in H.
+  destruct (bytes_eqb (t0' :: tt') (t0 :: tt)) eqn:E; [apply bytes_eqb_eq in E; contradiction|].
+  cbn [orb] in H. apply existsb_exists in H as (r'' & Hr & Q). apply rounds_between_in in Hr.
+  exists r''. tauto.
+Qed.
+
+(** a history of operations from a state; [Panic] = some operation made the kernel panic *)
+Fixpoint run_ops (s : kstate) (ops : list op) : res kstate :=
+  match ops with
+  | [] => Ok s
+  | o :: t => match Mirror.step s o with Ok (s', _) => run_ops s' t | Panic m => Panic m end
+  end.
+
+Lemma run_ops_reachable ih ivs ops : forall s s',
+  reachable_b ih ivs s -> Forall op_bounded ops -> run_ops s ops = Ok s' -> reachable_b ih ivs s'.
+Proof.
+  induction ops as [|o t IH]; intros s s' Hr Hb; cbn [run_ops].
+  - intros E; inversion E; subst; exact Hr.
+  - inversion Hb as [|? ? Ho Ht]; subst.
+    destruct (Mirror.step s o) as [[s1 r1]|] eqn:Es; [|discriminate].
+    apply IH; [|exact Ht]. eapply rb_step; eassumption.
+Qed.
